@@ -942,7 +942,7 @@ def _cands(case):
 # source tie: the Python text of forward / check_input / score, translated (harness/py2coq) and interpreted in Coq
 # ----------------------------------------------------------------------------------------
 IMPORTS_SRC = IMPORTS + "From PV Require C20.SrcRun.\n"
-SRC_TIE_CAP = 420
+SRC_TIE_CAP = 600
 SRC_THEOREMS = ["c20_source_forward_is_model", "c20_source_forward_rejects", "c20_source_check_input_is_legal",
                 "c20_source_dot_score_is_model", "c20_source_general_score_is_model",
                 "c20_source_attention_in_kept_range", "c20_source_attention_blind_to_masked"]
